@@ -81,4 +81,10 @@ example : (history (CD.init 0) [.start, .send "a", .disconnect, .send "b", .send
     [[], [.accepted "a", .wrote "a"], [], [.accepted "b"], [.accepted "c"], [], [], [],
      [.resp "a", .wrote "b"], [.cancel "b" true, .wrote "c"]] := by decide
 
+/-- the websocket client side of "disconnected": the loss of a connection is reported only after its (re)connection has
+    been announced (repair 516d27f; monitor `c10_flap`) - fingerprints of the three functions involved -/
+theorem skel_wsHandleReconnection : Gen.Skeletons.wsHandleReconnection = Ocpp.Expected.wsHandleReconnection := by decide
+theorem skel_wsClientConnect : Gen.Skeletons.wsClientConnect = Ocpp.Expected.wsClientConnect := by decide
+theorem skel_wsCleanup : Gen.Skeletons.wsCleanup = Ocpp.Expected.wsCleanup := by decide
+
 end C10
